@@ -2,3 +2,4 @@ pub mod explore;
 pub mod rawhttp;
 pub mod result;
 pub mod sha;
+pub mod clockshim;
